@@ -221,6 +221,9 @@ def build(P, kinds, shape, L=2, hibernation=False, generations=2, maximize=False
     if hibernation is None:
         options = {"random_seed": seed, "log_level": "warning"}
     w.hibernation = bool(hibernation)
+    if hibernation is None:
+        # another tree of the same process was configured with hibernation on: that must not leak into a config that omits the key
+        TreeConfig(levels, w.gsc, mechanism, options={"hibernation": True, "random_seed": seed})
     config = TreeConfig(levels, w.gsc, mechanism, options=options)
     tree = DemeTree(config)
     w.tree = tree
